@@ -559,6 +559,8 @@ ADAPTORS = {
     "std::result::Result::<T, E>::map_err": {"f": 1, "params": {2: [(0, ())]}, "result": [("ret", (), ()), (0, (), ())],
                                              "fnitem_result": [(0, (), ())]},
     "std::result::Result::<T, E>::and_then": {"f": 1, "params": {2: [(0, ())]}, "result": [("ret", (), ()), (0, (), ())]},
+    # `[T; N]::map(f)`: the elements (unmarked path) are what `f` returns for the elements of the receiver
+    "std::array::<impl [T; N]>::map": {"f": 1, "params": {2: [(0, ())]}, "result": [("ret", (), ())]},
     # iterators
     "std::iter::Iterator::map": {"f": 1, "params": {2: [(0, ("$item",))]}, "result": [("ret", ("$item",), ())],
                                  "fnitem_result": [(0, ("$item",), ("$item",))]},
